@@ -342,4 +342,65 @@ theorem addVirtualArc_funLines (version : Nat) (f : Func) :
     funLines (addVirtualArc version f) = funLines f := by
   unfold funLines; rw [addVirtualArc_lines]
 
+/-- which lines of file `k` a result reports: exactly the lines of the blocks of the functions
+whose file name is `k` -/
+theorem compute_lines_iff {g : Notes} {ds : List Gcda} {br : Bool} {r : List (Bytes × Cov)}
+    (h : compute g ds br = ok r) {k : Bytes} {cov : Cov} (hk : get? r k = some cov) (l : Nat) :
+    l ∈ keys cov.lines ↔ ∃ f ∈ g.funcs, f.fileName = k ∧ ∃ b ∈ f.blocks, l ∈ b.lines := by
+  have hs := compute_struct h
+  have h1 : get? (structOf r) k = some (covStruct cov) := by
+    unfold structOf; rw [get?_map, hk]; rfl
+  rw [hs] at h1
+  unfold gcnoStructure finalizeS at h1
+  have h2 := foldl_finStepS_lines br k l (g.funcs.map (addVirtualArc g.version)) []
+  rw [h1] at h2
+  simp only [get?_nil, false_or, covStruct] at h2
+  rw [h2]
+  constructor
+  · rintro ⟨f', hf', hk', hl⟩
+    obtain ⟨f, hf, rfl⟩ := List.mem_map.1 hf'
+    rw [addVirtualArc_fileName] at hk'
+    rw [addVirtualArc_funLines, mem_funLines] at hl
+    exact ⟨f, hf, hk', hl⟩
+  · rintro ⟨f, hf, hk', hl⟩
+    refine ⟨addVirtualArc g.version f, List.mem_map.2 ⟨f, hf, rfl⟩, ?_, ?_⟩
+    · rw [addVirtualArc_fileName]; exact hk'
+    · rw [addVirtualArc_funLines, mem_funLines]; exact hl
+
+/-- a line that lives in exactly one block gets that block's counter -/
+theorem lineCounts_single (f : Func) (c : Cnt) (l b : Nat) : ∀ (m : List (Nat × List Nat))
+    (y : Nat → Nat) (ls : List (Nat × Nat)), lineCounts f c m y = ok ls → (l, [b]) ∈ m →
+      (l, c.blk b) ∈ ls := by
+  intro m
+  induction m with
+  | nil => intro y ls _ hm; cases hm
+  | cons lb m ih =>
+    obtain ⟨l', bs⟩ := lb
+    intro y ls h hm
+    have key : ∃ n y' r, lineCounts f c m y' = ok r ∧ ls = (l', n) :: r ∧
+        (∀ b', bs = [b'] → n = c.blk b') := by
+      cases bs with
+      | nil =>
+        simp only [lineCounts] at h
+        obtain ⟨⟨y1, n⟩, _, h2⟩ := bind_eq_ok.1 h
+        obtain ⟨r, h3, h4⟩ := bind_eq_ok.1 h2
+        cases h4; exact ⟨n, y1, r, h3, rfl, fun b' hb => by cases hb⟩
+      | cons b0 bs' =>
+        cases bs' with
+        | nil =>
+          simp only [lineCounts] at h
+          obtain ⟨r, h3, h4⟩ := bind_eq_ok.1 h
+          cases h4
+          exact ⟨_, y, r, h3, rfl, fun b' hb => by cases hb; rfl⟩
+        | cons b1 bs'' =>
+          simp only [lineCounts] at h
+          obtain ⟨⟨y1, n⟩, _, h2⟩ := bind_eq_ok.1 h
+          obtain ⟨r, h3, h4⟩ := bind_eq_ok.1 h2
+          cases h4; exact ⟨n, y1, r, h3, rfl, fun b' hb => by cases hb⟩
+    obtain ⟨n, y', r, h1, rfl, hn⟩ := key
+    rcases List.mem_cons.1 hm with e | hm
+    · cases e
+      rw [hn b rfl]; exact List.mem_cons_self
+    · exact List.mem_cons_of_mem _ (ih _ _ h1 hm)
+
 end Grcov.Gcno
